@@ -446,3 +446,16 @@ _c09_base1 = contracts
 
 def contracts():
     return _c09_base1() + [resolve_value_container_contract("list")]
+
+
+# change detection behind cache invalidation and `.rx.watch`: a genuine change of a container value is
+# never suppressed (verified for C03)
+_c09_base2 = contracts
+
+
+def contracts():
+    from contracts import c03 as _c03
+    extra = [_c03.compare_iterator_contract(), _c03.compare_mapping_contract()]
+    for c in extra:
+        c.prop = PROP
+    return _c09_base2() + extra
